@@ -33,11 +33,17 @@ def run_verus(path, rlimit=30, seed=None, multiple_errors=8, timeout=900, extra=
     cmd += list(extra)
     cmd += ["--", "--error-format=json"]
     t0 = time.time()
+    import signal
+    proc = subprocess.Popen(cmd, stdout=subprocess.PIPE, stderr=subprocess.PIPE, cwd=os.path.dirname(path) or ".", start_new_session=True)
     try:
-        p = subprocess.run(cmd, stdout=subprocess.PIPE, stderr=subprocess.PIPE, timeout=timeout,
-                           cwd=os.path.dirname(path) or ".")
-        out, err, rc = p.stdout.decode("utf-8", "replace"), p.stderr.decode("utf-8", "replace"), p.returncode
-    except subprocess.TimeoutExpired as e:
+        o, e = proc.communicate(timeout=timeout)
+        out, err, rc = o.decode("utf-8", "replace"), e.decode("utf-8", "replace"), proc.returncode
+    except subprocess.TimeoutExpired:
+        try:
+            os.killpg(proc.pid, signal.SIGKILL)   # also the z3 children
+        except OSError:
+            pass
+        proc.communicate()
         return {"cmd": " ".join(cmd), "rc": None, "timeout": True, "wall_s": time.time() - t0,
                 "diags": [], "json": None, "stderr": "timeout"}
     diags = []
